@@ -5,15 +5,28 @@
    index into a tuple/list literal and a constant key a dict literal defines are replaced by the
    selected component - the projection node and the package disappear; and a name with a pending
    definition (the packaged argument of a fused stage) is replaced by that definition at every use.
-   What is NOT proved (kept visible):
-       packaging_eliminated :
-         forall fuel c q q' c', disciplined_chain q -> reserved c q ->
-           simp fuel [[]] [] c (ext q) = Ok (q', c') -> pkg_free_except_result q'.
-   The chain-level statement is checked on generated disciplined chains by the node-kind oracle and
-   the model/code correspondence (harness/props/c14.py). *)
+   The chain-level statement (Proofs/SimplifyShape.v, strong induction on the fuel over the whole
+   traversal, using C02's invariants): [packaging_eliminated] below.  The discipline "earlier stages
+   package, later stages only take apart with constant indices, keys or attribute names" is
+   typability [has_shape G e s] in a shape system (atoms; tuples/lists of shapes; dictionaries with
+   distinct constant str/int keys; sequences of non-atomic elements): names have the shape of what
+   they are bound to, a constant projection of a package has the component's shape, Select/Where/
+   SelectMany bind their one parameter to the element shape of the source, called lambdas bind the
+   shapes of their arguments, everything else combines atoms.  The theorem: a typable query of shape
+   [s] simplifies to a query in canonical form [canon s q'] - for an atom shape a term without any
+   Tuple/List/Dict node ([nopkg], [packaging_eliminated_atom]); for a package shape exactly the
+   package literal of the final result over atom components; for a sequence of packages a
+   Select/SelectMany whose source is package-free and whose lambda body is canonical.  Every chain
+   length, operator order, nesting of packaging, projection path and choice of binder names.
+   Outside the theorem (kept visible): queries mentioning [First] (C02's scope; the attribute form of
+   a projection behind a substituted First() is the open finding in KNOWN_FINDINGS.txt), operator
+   lambdas with other than one parameter ([two_parameter_lambda_keeps_package]: Python raises
+   TypeError on such a call), boolean dictionary keys.  The node-kind oracle and the model/code
+   correspondence of harness/props/c14.py cover First-wrapped packages and method-form chains. *)
 From FA.Base Require Import PyAst Value Traverse.
 From FA.Model Require Import Simplify.
-From FA.Proofs Require Import SimplifyFacts SimplifyPkg.
+From FA.Base Require Import Eval Names.
+From FA.Proofs Require Import SimplifyFacts SimplifyPkg SimplifyTotal SimplifyInv RenameSem SimplifySound SimplifyShape.
 
 Theorem packaged_argument_reaches_every_use : forall f st bd c x,
   simp (S f) st bd c (Name x) = match stack_lookup x st with Some v => Ok (v, c) | None => Ok (Name x, c) end.
@@ -84,3 +97,36 @@ Proof. eexists; eexists; repeat split; vm_compute; reflexivity. Qed.
 Example chain2_is_compiled_away :
   exists q' c', simplify 400 0 chain2 = Ok (q', c') /\ pkg_free q' = true /\ pkg_free chain2 = false.
 Proof. eexists; eexists; repeat split; vm_compute; reflexivity. Qed.
+
+(* ---------- the chain-level theorem ---------- *)
+Theorem packaging_eliminated : forall (B : backend), backend_ok B ->
+  forall fuel c q q' c' s, wfq q = true -> below c q -> bok B q -> mentions "First" q = false ->
+    has_shape (fun _ => SA) q s -> simplify fuel c q = Ok (q', c') -> canon s q'.
+Proof. exact SimplifyShape.packaging_eliminated. Qed.
+Print Assumptions packaging_eliminated.
+
+Theorem packaging_eliminated_atom : forall (B : backend), backend_ok B ->
+  forall fuel c q q' c', wfq q = true -> below c q -> bok B q -> mentions "First" q = false ->
+    has_shape (fun _ => SA) q SA -> simplify fuel c q = Ok (q', c') -> nopkg q' = true.
+Proof. exact SimplifyShape.packaging_eliminated_atom. Qed.
+Print Assumptions packaging_eliminated_atom.
+
+(* the invariant, for every stack the traversal can be in *)
+Theorem shape_invariant : forall (B : backend), backend_ok B ->
+  forall fuel st bd c e e' c' G s,
+    simp fuel st bd c e = Ok (e', c') -> stack_ok B c st -> pre B st c e -> stack_shapes G st -> has_shape G e s -> canon s e'.
+Proof. exact SimplifyShape.shape_sound. Qed.
+Print Assumptions shape_invariant.
+
+(* non-vacuity: the four-stage chain
+     Select(SelectMany(Where(Select(ds, e: {'j': e.jets, 'm': (e.met, e.run)}), d: d.m[0] > 10),
+                       d: Select(d.j, j: (j.pt, d.m[1]))), p: p[0] + p[-1])
+   is typable at the atom shape, meets the hypotheses, and its simplification has no package node
+   (obtained through the theorem); after three stages the only packages left are the final result *)
+Example chain_compiled_away :
+  exists q' c', simplify 200 0 ShapeExample.stage4 = Ok (q', c') /\ nopkg q' = true /\ nopkg ShapeExample.stage4 = false.
+Proof. exact ShapeExample.stage4_compiled_away. Qed.
+
+Example chain_result_only :
+  exists q' c', simplify 200 0 ShapeExample.stage3 = Ok (q', c') /\ canon (SS (ST [SA; SA])) q'.
+Proof. exact ShapeExample.stage3_result_only. Qed.
